@@ -63,7 +63,7 @@ var raceSubjects = []raceSubject{
 	{Name: "Percentile", Pkg: "measurements", Type: "WindowlessMovingPercentile", Setup: []string{`x, _ := measurements.NewWindowlessMovingPercentile(0.9, 0.01, 0.5, 0.5)`}},
 	{Name: "GoMetricsRegistry", Pkg: "metric_registry/gometrics", Type: "MetricRegistry", Setup: []string{
 		`x, _ := gometrics.NewGoMetricsMetricRegistry(gm.NewRegistry(), "", "p.", time.Second)`},
-		Skip: map[string]bool{"Start": true, "Stop": true}},
+		Skip: map[string]bool{"Stop": true}},
 }
 
 // argExpr synthesises an argument expression for a parameter type; ok=false: not synthesisable.
